@@ -50,4 +50,26 @@ AddrFrom(run, L, k, open, cnt) ==      \* open: current chain of <<id, n>>; cnt:
            ext == ExtendChain(base, b, keep + 1, cnt)
        IN <<ext.chain>> \o AddrFrom(run, L, k + 1, ext.chain, ext.cnt)
 Addresses(run, L) == AddrFrom(run, L, 1, <<>>, [x \in {} |-> 0])
+
+(* ------------------------------------------------------------------ implementation-shaped *)
+(* X12ContextReader._add_segment as coded: the position in the tree under construction is the current loop data     *)
+(* node (chain of <<loop id, instance>> below the root, plus the map path of that loop); a segment moves it by the    *)
+(* walker's pop / push lists when the loop path changed, by the explicit repeat case when it did not, and not at all   *)
+(* for ISA and GS, which are never walked (empty lists).  Each source segment carries pops / pushes (loop ids).       *)
+RECURSIVE ImplFrom(_, _, _, _, _, _)
+ImplFrom(run, L, k, chain, lastpath, cnt) ==
+  IF k > Len(run) THEN <<>>
+  ELSE LET s == run[k] IN
+    IF k = 1 THEN <<<<>>>> \o ImplFrom(run, L, 2, <<>>, s.path, cnt)            \* new tree on the parent loop of its first segment
+    ELSE IF lastpath # s.path THEN
+        LET np == IF Len(s.pops) < Len(chain) THEN Len(s.pops) ELSE Len(chain)     \* popping above the root leaves the root
+            base == SubSeq(chain, 1, Len(chain) - np)
+            ext == ExtendChain(base, s.pushes, 1, cnt)
+        IN <<ext.chain>> \o ImplFrom(run, L, k + 1, ext.chain, s.path, ext.cnt)
+    ELSE IF s.first /\ Len(chain) > 0 THEN                                       \* loop repeat
+        LET base == SubSeq(chain, 1, Len(chain) - 1)
+            ext == ExtendChain(base, <<chain[Len(chain)][1]>>, 1, cnt)
+        IN <<ext.chain>> \o ImplFrom(run, L, k + 1, ext.chain, s.path, ext.cnt)
+    ELSE <<chain>> \o ImplFrom(run, L, k + 1, chain, lastpath, cnt)
+ImplAddresses(run, L) == ImplFrom(run, L, 1, <<>>, <<>>, [x \in {} |-> 0])
 =============================================================================
